@@ -442,7 +442,11 @@ def trans(tree, states, ctx):
                     out.append((conj(acc, prev_nonword(ctx)), pend_and(pend, (ctx.W, False), ctx)))
                 elif av == "AT_NON_BOUNDARY":
                     out.append((conj(acc, prev_word(ctx)), pend_and(pend, (ctx.W, False), ctx)))
-                    out.append((conj(acc, prev_nonword(ctx)), pend_and(pend, (ctx.NW, True), ctx)))
+                    # CPython: \B never matches in an EMPTY text (sre: `if (state->beginning == state->end) return 0`); at
+                    # the start of a non-empty text it needs a following non-word character, the end does not do
+                    nothing_yet = star(MARK)
+                    out.append((conj(acc, prev_nonword(ctx), neg(nothing_yet)), pend_and(pend, (ctx.NW, True), ctx)))
+                    out.append((conj(acc, prev_nonword(ctx), nothing_yet), pend_and(pend, (ctx.NW, False), ctx)))
                 else:
                     raise Untranslatable(av)
             states = merge([(a, p) for a, p in out if p is None or p[0] or p[1]])
